@@ -741,7 +741,8 @@ def search(ck, seeds=None):
 # =============================================================================================================
 # correspondence: real code vs the Coq model (exact ints)
 
-COQ_EXTRA = '''From Model Require Import PyHash Graph Morgan MorganFast Writer.
+COQ_EXTRA = '''From Model Require Import PyHash Graph Morgan MorganFast Writer ChiralMorgan.
+From Proofs Require Import WriterInvProofs WriterStereoExt.
 Import ListNotations.
 Open Scope Z_scope.
 Definition iadj_eqb (a b : iadj) : bool := list_eqb (pair_eqb Z.eqb (list_eqb (pair_eqb Z.eqb Z.eqb))) a b.
@@ -770,6 +771,30 @@ Definition wr_ok (g : mol) (w tb : list (Z * Z)) (tabs : stabs) (text : string) 
   | Ok (txt, ord) => String.eqb txt text && list_eqb Z.eqb ord order
   | Err _ => false
   end.
+(* _chiral_morgan: from the molecule (atoms_order by the Morgan model) to the stereo-aware weights, with the label dicts passed
+   to `_morgan` call by call; [ord] = iteration order of the three sets as first built *)
+Definition cm_ok (rings : list Z) (g : mol) (tabs : cmtabs) (ord : cmorders) (exp : pyres labels) (trace : list labels) : bool :=
+  match fast_atoms_order rings g with
+  | Err e => pyres_eqb labels_eqb (Err e) exp
+  | Ok ao => match chiral_morgan hash63 g tabs ao ord with
+             | Ok (r, tr) => pyres_eqb labels_eqb (Ok r) exp && list_eqb labels_eqb tr trace
+             | Err e => pyres_eqb labels_eqb (Err e) exp
+             end
+  end.
+(* hypothesis of C01_smiles_invariant_discrete_remap: the stereo registries of the remap()-ed molecule are the renamed registries,
+   and the remap()-ed molecule is ren_mol (same insertion orders) *)
+Definition oz_eqb := option_eqb Z.eqb.
+Definition env_eqb (a b : env4) : bool :=
+  let '(a0, a1, a2, a3) := a in let '(b0, b1, b2, b3) := b in (a0 =? b0) && (a1 =? b1) && oz_eqb a2 b2 && oz_eqb a3 b3.
+Definition zz_eqb (a b : Z * Z) : bool := (fst a =? fst b) && (snd a =? snd b).
+Definition stabs_eqb (a b : stabs) : bool :=
+  list_eqb (pair_eqb Z.eqb (list_eqb Z.eqb)) (t_tetra a) (t_tetra b) && list_eqb (pair_eqb Z.eqb env_eqb) (t_allenes a) (t_allenes b) &&
+  list_eqb (pair_eqb Z.eqb zz_eqb) (t_allene_term a) (t_allene_term b) && list_eqb (pair_eqb zz_eqb env_eqb) (t_sct a) (t_sct b) &&
+  list_eqb (pair_eqb Z.eqb zz_eqb) (t_ctc a) (t_ctc b) && list_eqb (pair_eqb Z.eqb zz_eqb) (t_ctt a) (t_ctt b) &&
+  list_eqb (pair_eqb Z.eqb Z.eqb) (t_ctcp a) (t_ctcp b).
+Definition sfun (f : list (Z * Z)) (n : Z) : Z := match zget f n with Some x => x | None => n end.
+Definition remap_ok (f : list (Z * Z)) (g g' : mol) (tabs tabs' : stabs) : bool :=
+  mol_eqb (ren_mol (sfun f) g) g' && stabs_eqb (ren_tabs (sfun f) tabs) tabs'.
 (* the Uint63 hash against the arbitrary-precision model of PyHash.v *)
 Definition h_ok (l : list Z) (v : Z) : bool := (hash63 l =? v) && (hash_ztuple l =? v).
 '''
@@ -799,6 +824,71 @@ def tabs_term(m):
             lst([tup(zraw(n), pair_term(v)) for n, v in m._stereo_cis_trans_centers.items()]) + ' ' +
             lst([tup(zraw(n), pair_term(v)) for n, v in m._stereo_cis_trans_terminals.items()]) + ' ' +
             lst([tup(zraw(n), zraw(v)) for n, v in m._stereo_cis_trans_counterpart.items()]) + ')')
+
+
+def cmtabs_term(m):
+    return ('(mkCm ' + lst(list(m.tetrahedrons), zraw) + ' ' +
+            lst([tup(zraw(n), lst(list(v), zraw)) for n, v in m.stereogenic_tetrahedrons.items()]) + ' ' +
+            lst([tup(zraw(n), env_term(v)) for n, v in m.stereogenic_allenes.items()]) + ' ' +
+            lst([tup(pair_term(k), env_term(v)) for k, v in m.stereogenic_cis_trans.items()]) + ' ' +
+            lst([tup(zraw(n), pair_term(v)) for n, v in m._stereo_cis_trans_centers.items()]) + ')')
+
+
+class ChiralSpy:
+    """records the label dicts passed to `_morgan` by _chiral_morgan / __differentiation (module-level name of
+    chython.algorithms.stereo), removed afterwards"""
+
+    def __enter__(self):
+        import chython.algorithms.stereo as st
+        self.st = st
+        self.orig = st._morgan
+        self.trace = []
+
+        def spy(atoms, bonds):
+            self.trace.append(dict(atoms))
+            return self.orig(atoms, bonds)
+        st._morgan = spy
+        return self
+
+    def __exit__(self, *a):
+        self.st._morgan = self.orig
+
+
+def chiral_case(spy, m):
+    """one run of the real _chiral_morgan: (Coq case, weights).  The iteration orders of the three sets are obtained by building
+    them with the same expressions as the code does (CPython's order for a given construction is deterministic)"""
+    stereo_atoms = {n for n, a in m.atoms() if a.stereo is not None}
+    stereo_bonds = {n for n, mb in m._bonds.items() if any(b.stereo is not None for _, b in mb.items())}
+    atoms_stereo = stereo_atoms.intersection(m.tetrahedrons)
+    allenes_stereo = stereo_atoms - atoms_stereo
+    ctt = m._stereo_cis_trans_terminals
+    try:
+        cis_trans_stereo = {ctt[n] for n in stereo_bonds}
+    except KeyError:
+        return None, None
+    ord_term = f'(mkCmo {lst(list(atoms_stereo), zraw)} {lst(list(cis_trans_stereo), pair_term)} {lst(list(allenes_stereo), zraw)})'
+    ring = [n for n, a in m.atoms() if a.in_ring]
+    m.__dict__.pop('_chiral_morgan', None)
+    spy.trace = []
+    try:
+        w = m._chiral_morgan
+        exp = f'(Ok {zmap(w)})'
+    except KeyError:
+        w, exp = None, '(Err KeyError)'
+    trace = lst([zmap(t) for t in spy.trace])
+    return f'cm_ok {lst(ring, zraw)} {mol_term(m)} {cmtabs_term(m)} {ord_term} {exp} {trace}', w
+
+
+# molecules with several equal stereo elements: the stereo refinement has to work (meso / chiral pairs, rings, polyenes)
+STEREO_TIES = [
+    'C[C@H](O)[C@@H](O)C', 'C[C@H](O)[C@H](O)C', 'C[C@@H](O)[C@@H](O)C', 'O[C@H](C)C[C@@H](C)O', 'O[C@H](C)C[C@H](C)O',
+    'C[C@H](Cl)C(C)(C)[C@@H](C)Cl', 'C[C@H](F)[C@H](Cl)[C@H](Cl)[C@@H](C)F', 'C[C@H](F)[C@H](Cl)[C@@H](Cl)[C@@H](C)F',
+    'C/C=C/C/C=C/C', 'C/C=C/C/C=C\\C', 'C/C=C\\C/C=C\\C', 'C/C=C/C(C)(C)/C=C\\C', 'F/C=C/C=C/F', 'F/C=C/C=C\\F', 'F/C=C\\C=C/F',
+    'C[C@H]1CC[C@@H](C)CC1', 'C[C@H]1CC[C@H](C)CC1', 'C[C@H]1C[C@@H](C)C1', 'O[C@H]1[C@H](O)[C@@H](O)[C@H](O)[C@@H](O)[C@@H]1O',
+    'C[C@H]1CCC[C@@H](C)C1', 'C[C@H]1CCC[C@H](C)C1', 'C[C@@H]1C[C@H](C)C[C@H](C)C1', 'CC=[C@]=CC(C)(C)C=[C@]=CC', 'CC=[C@]=CC(C)(C)C=[C@@]=CC',
+    'C[C@H](N)C(=O)N[C@@H](C)C(=O)O', 'OC[C@H](O)[C@@H](O)[C@H](O)[C@H](O)CO', 'OC[C@H](O)[C@@H](O)[C@@H](O)[C@H](O)CO',
+    'C/C=C/[C@H](C)/C=C/C', 'C/C=C/[C@H](C)/C=C\\C', 'C/C=C/[C@@H](O)[C@H](O)/C=C/C', 'C(=C/C)(/C=C/C)/C=C\\C',
+]
 
 
 def cstr(text):
@@ -1002,6 +1092,33 @@ def correspondence(ck):
                     ck.count('corr:writer-full')
             ck.count(f'corr:mol:atoms<={min(90, -(-len(m) // 10) * 10)}')
             ck.count('corr:mol:classes-discrete' if len(set(m.atoms_order.values())) == len(m) else 'corr:mol:classes-tied')
+    # _chiral_morgan / __differentiation: stereo molecules as read and renumbered, weights and `_morgan` inputs call by call
+    cpool = STEREO_TIES + GAP_EXAMPLES + ALLENES + [x for x in SPECIAL if '@' in x or '/' in x or '\\' in x] + \
+        corpus.sample(corpus.stereo_smiles(), 70 if quick else 500, ck.seed, 'c01-chiral')
+    with ChiralSpy() as cspy:
+        for smi in cpool:
+            try:
+                m = smiles(smi)
+            except Exception:
+                continue
+            if not n_stereo(m) or len(m) > 70:
+                continue
+            v2 = corpus.renumber(m, rng)
+            cases.append(f'remap_ok {zmap(dict(zip(m._atoms, v2._atoms)))} {mol_term(m)} {mol_term(v2)} {tabs_term(m)} {tabs_term(v2)}')
+            meta.append(('remap-registries', smi))
+            ck.case(('corr-remap', smi, tuple(v2._atoms)), nontrivial=True)
+            ck.count('corr:remap-registries')
+            for how, v in (('as-read', m), ('renumbered', v2)):
+                c, w = chiral_case(cspy, v)
+                if c is None:
+                    ck.count('corr:chiral:skipped')
+                    continue
+                cases.append(c)
+                meta.append(('chiral', how, smi, len(cspy.trace)))
+                ck.case(('corr-chiral', smi, how, tuple(v._atoms)), nontrivial=True)
+                ck.count(f'corr:chiral:morgan-calls={min(len(cspy.trace), 3)}')
+                if w is not None and w is not v.atoms_order and dict(w) != dict(v.atoms_order):
+                    ck.count('corr:chiral:weights-differ-from-atoms_order')
     # the two hash models against the interpreter on random tuples (boundaries of the int hash included)
     edge = [0, 1, -1, -2, (1 << 61) - 1, (1 << 61) - 2, 1 << 61, -(1 << 61) + 1, -(1 << 61), (1 << 63) - 1, -(1 << 63), 1 << 63, 1 << 64, -(1 << 64) - 1]
     for i in range(150 if quick else 2000):
@@ -1011,8 +1128,8 @@ def correspondence(ck):
         ck.case(('hash', t))
         ck.count('corr:hash-tuple')
     ok, failing, log = coqcases.run_cases('c01', 'PyHash', cases, extra=COQ_EXTRA, shard=100)
-    ck.oblige('correspondence: hash(atom), int_adjacency, _morgan (labels of the last round, result, KeyError), atoms_order, start atom and '
-              'first child of the writer == Coq model (exact ints, CPython tuple hash model)', ok and not failing, 'correspondence', log or repr([meta[i] for i in failing[:5]]))
+    ck.oblige('correspondence: hash(atom), int_adjacency, _morgan (labels of the last round, result, KeyError), atoms_order, _chiral_morgan '
+              '(weights + every _morgan input), start atom and first child of the writer == Coq model (exact ints, CPython tuple hash model)', ok and not failing, 'correspondence', log or repr([meta[i] for i in failing[:5]]))
     ck.extra['correspondence_cases'] = len(cases)
     ck.sample({'model_call': cases[0][:600], 'meta': repr(meta[0])[:300]})
     ck.sample({'model_call': cases[-200][:600], 'meta': repr(meta[-200])[:300]})
@@ -1037,7 +1154,7 @@ def directed(ck, bad, suspects):
 
 
 def run(ck):
-    ck.trusted += ['translators tools/gen_elements.py, gen_smiles_tables.py, gen_stereo.py (tables the writer model imports)',
+    ck.trusted += ['translators tools/gen_elements.py, gen_stereo.py (regenerated here) and gen_smiles_tables.py (regenerated by C02's check; no C01 theorem depends on table contents)',
                    'correspondence runner harness/checks/C01.py + harness/coqcases.py + harness/coqmol.py (prints live molecules as Coq terms)',
                    'CachedMethods shim harness/boot.py', 'CPython 3.12.1', 'Coq primitive 63-bit integers under vm_compute (model/MorganFast.v)',
                    'RDKit 2026.3 and the own colour-refinement oracle (search only)']
@@ -1062,7 +1179,9 @@ def run(ck):
         '(own symmetry oracle) are judged on the stereo-free string only; the bond-order-tie class (annulenes with localised bonds, fixed by 2e3e6bb) is judged in full.')
     import time
     t0 = time.time()
-    proved = common.standard_proof_steps(ck, translators=['elements', 'smiles_tables', 'stereo'], extra_targets=['model/MorganFast.vo'])
+    # gen/SmilesTables.v (C02's translator, which also guards the READER's atom regex) is used as C02's check regenerates it: no C01
+    # theorem depends on the content of a table, and the writer tables are tied here by the whole-string writer correspondence
+    proved = common.standard_proof_steps(ck, translators=['elements', 'stereo'], extra_targets=['model/MorganFast.vo', 'model/ChiralMorgan.vo'])
     t1 = time.time()
     tied, bad, log, suspects = correspondence(ck)
     t2 = time.time()
@@ -1073,7 +1192,8 @@ def run(ck):
         if not tied:
             kinds = sorted({x[0] for x in bad if x}) or ['cases file did not evaluate']
             where = {'raw': '_morgan on raw dicts', 'mol': 'hash(atom) / int_adjacency / atoms_order of molecules', 'hash': 'tuple hash model',
-                     'writer-keys': 'start atom / first child of _smiles', 'writer': 'canonical string and order of _smiles (writer model)'}
+                     'writer-keys': 'start atom / first child of _smiles', 'chiral': '_chiral_morgan / __differentiation (weights, _morgan inputs)',
+                     'remap-registries': 'remap() = ren_mol and its stereo registries = renamed registries', 'writer': 'canonical string and order of _smiles (writer model)'}
             ck.unchecked('correspondence model vs implementation: ' + '; '.join(where.get(k, k) for k in kinds), log[-1500:],
                          [repr(x)[:400] for x in bad[:20]])
     ck.extra['proved'] = proved
